@@ -731,6 +731,7 @@ theorem step_all2 (hs : SlashCodeOk) (hg : GuardCodeOk) (s : State) (op : Op) (h
   | withdraw o => exact withdraw_owed s o hi.all.stake hi.owed
   | fund o amt => exact fund_owed s o amt hi.owed
   | mint o amt => exact owed_mono s _ hi.owed rfl rfl rfl (fun _ => Nat.le_refl _)
+  | tick dt => exact owed_mono s _ hi.owed rfl rfl rfl (fun _ => Nat.le_refl _)
   | unbond o => exact unbond_owed s o hi.owed
   | mkbatch => simp only [step, mkBatch]; split <;> first | exact hi.owed | exact owed_mono s _ hi.owed rfl rfl rfl (fun _ => Nat.le_refl _)
   | mkcall => exact owed_mono s _ hi.owed rfl rfl rfl (fun _ => Nat.le_refl _)
